@@ -460,6 +460,35 @@ func builtinModels() map[string]modelFn {
 		ln := func(x T) T { return mk(SInt, "gs.len", x) }
 		return []T{ex.define("hassuffix", And(Le(ln(p), ln(s)), Eq(ex.strSub(s, Sub(ln(s), ln(p)), ln(s)), p)))}
 	}
+	m["math.Pow"] = func(ex *Exec, st *State, args []T, c *ssa.CallCommon) []T {
+		if args[1].s == "2.0" {
+			return []T{Mul(args[0], args[0])}
+		}
+		ex.vc.ufun("real.pow", []Sort{SReal, SReal}, SReal)
+		return []T{mk(SReal, "real.pow", args[0], args[1])}
+	}
+	m["math.Sqrt"] = func(ex *Exec, st *State, args []T, c *ssa.CallCommon) []T {
+		ex.vc.declareSqrt()
+		return []T{mk(SReal, "real.sqrt", args[0])}
+	}
+	m["sort.Float64s"] = func(ex *Exec, st *State, args []T, c *ssa.CallCommon) []T {
+		// in-place sort of a slice held in a local or field: the new content is ordered and has the same length
+		// (that it is a permutation of the old content is the assumed part of sort's contract)
+		p, ok := ex.prov[c.Args[0]]
+		if !ok {
+			ex.fail("sort.Float64s on a slice of unknown provenance")
+			return nil
+		}
+		old := args[0]
+		arr := ex.vc.fresh("sorted.arr", slArr(old).sort)
+		nv := mkSlice(old.sort, arr, slLen(old), slNil(old))
+		ex.vc.axiom(fmt.Sprintf("(forall ((i!s Int) (j!s Int)) (! (=> (and (<= 0 i!s) (<= i!s j!s) (< j!s %s)) (<= (select %s i!s) (select %s j!s))) :pattern ((select %s i!s) (select %s j!s))))", slLen(old).s, arr.s, arr.s, arr.s, arr.s))
+		ex.vc.assumed["extern sort.Float64s: result is ordered, same length; permutation of the input is assumed, not used"] = true
+		if err := ex.store(st, p, nv); err != nil {
+			ex.fail("sort.Float64s: %v", err)
+		}
+		return nil
+	}
 	m["(*sync.Once).Do"] = func(ex *Exec, st *State, args []T, c *ssa.CallCommon) []T {
 		ex.vc.note("sync.Once.Do body skipped")
 		return nil
